@@ -331,6 +331,9 @@ def fragile(case, ir, mr):
         return True                          # f/minsd overflows in floats (not modelled)
     if case["op"] == "bet" and fragile_bet(case):
         return True
+    if case["op"] == "test" and (case["init"].get("test") == "betting_mart") and case["init"].get("bet") == "agrapa" \
+            and fragile_bet(case):
+        return True                          # the same 0/0 and c/0 discontinuities, reached through the test
     if case["init"].get("estim") == "shrink_trunc" and F(kw_.get("f") or 0) > 0 and case["x"] and not exact_inputs(case):
         # the running sd enters through f/sd: for almost constant data (values differing by less than 1e-6 relative)
         # the float running variance has few correct digits, and with it the estimate
@@ -677,6 +680,9 @@ def corpus():
         cut(c("betting_mart", ["1/10", "1/5", "0"], N=3, t="1/10", stream="boundary:corpus"), 2),
         c("alpha_mart", ["1"] * 28 + ["0"] * 11 + ["1"], N=50, t="29/50", stream="boundary:corpus"),  # fl(50*0.58) < 29 = fl(29/50)*50
         c("betting_mart", ["1"] * 28 + ["0"] * 11 + ["1"], N=50, t="29/50", stream="boundary:corpus"),
+        # round 9: aGRAPA next to its 0/0 ("running mean = null mean, no variance: do not bet") and its cap c/mu_j
+        c("betting_mart", ["3/10", "9/10", "1/5", "2/5"], bet="agrapa", t="3/10", stream="agrapa-edge:corpus"),
+        c("betting_mart", ["1/2", "1/2", "1/2", "1/2", "3/4", "1/2", "1/2", "0", "1"], N=10, bet="agrapa", stream="agrapa-edge:corpus"),
         # section 6 witnesses (F01-F08, F21): the repaired code must agree with the model on them
         c("wald_sprt", ["1", "1", "1"], eta="7/10"),
         c("wald_sprt", ["0"], eta="7/10"),
@@ -1291,6 +1297,23 @@ def gen_boundary(rng, tier):
 _OFF_PAIRS = [(N_, K_) for N_ in range(3, 61) for K_ in range(1, N_) if N_ * (K_ / N_) != K_]
 
 
+def gen_agrapa_edge(rng, tier):
+    """aGRAPA where its formula is discontinuous or its cap binds (round 9): the first draw equal to the null mean (0/0:
+    "do not bet"), low-variance runs just above the null mean from a small population (the bet sits on the cap c/mu_j,
+    lam_j mu_j = 1 - eps), then an exact 0 (the factor 1 - lam_j mu_j must not go negative)"""
+    t = rng.choice([F(3, 10), F(1, 10), F(7, 10), F(1, 2), F(1, 2), F(1, 4)])
+    N = rng.choice([None, None, 10, 10, 12, 20])
+    n = rng.randint(3, 9) if N is None else rng.randint(3, min(9, N))
+    grid = [t, t, F(1, 2), F(3, 4), F(1), F(9, 10), F(1, 5), F(2, 5), F(0)]
+    x = [t if rng.chance(0.6) else rng.choice(grid)] + [rng.choice(grid) for _ in range(n - 1)]
+    if rng.chance(0.5) and n >= 4:
+        x = [rng.choice([F(1, 2), F(3, 4), F(1), t]) for _ in range(n - 2)] + [F(0), rng.choice([F(1), F(0), F(1, 2)])]
+    return {"op": rng.choice(["test", "test", "bet"]), "stream": "agrapa-edge",
+            "init": {"test": "betting_mart", "estim": None, "bet": "agrapa", "u": "1", "N": N, "t": S(t), "ro": True,
+                     "kw": {}, "u_now": None},
+            "x": [S(v) for v in x]}
+
+
 def _single_rounding(xd):
     """xd: the draws as the doubles the code receives (Fractions).  True when every running float total but the last
     is exact, so that the float total of all of them is the exact total rounded ONCE (and float comparisons with
@@ -1311,6 +1334,8 @@ def gen_extra(rng, tier):
         return gen_boundary(rng, tier)
     if r < 0.20:
         return gen_int_params(rng, tier)
+    if r < 0.27:
+        return gen_agrapa_edge(rng, tier)
     r = rng.random()
     if r < 0.05:
         return gen_long(rng, tier)
